@@ -19,6 +19,10 @@
 //! max_width := number
 //! ```
 //!
+//! Arguments may be nested at most 64 levels deep; a formatter whose arguments
+//! go deeper is rejected, and it and the rest of the pattern are rendered as an
+//! `{ERROR: ...}` marker.
+//!
 //! # Special characters
 //!
 //! The `{`, `}`, `(`, `)`, and `\` characters are part of the pattern syntax;
